@@ -128,8 +128,8 @@ PROPS["C10"] = Prop(
 PARAMS["C10"] = {"rule": "chunks_from_slice(_mut) for every L in 0..=4N+3, N in {0,1,2,3,7,8,16,33}, element kinds of 0/1/4/24 bytes: pointer and length of both parts vs the source; slice_from_chunks(_mut), from_chunks(_mut), into_chunks(_mut) for several chunk counts."}
 
 PROPS["C11"] = Prop(
-    "C11", ["GA.Props.C11"],
-    [Engine("regroup", scen.regroup, sig=lambda l: l.split()[0], miri=60)],
+    "C11", ["GA.Props.C11", "GA.Props.BodyViews"],
+    [Engine("regroup", scen.regroup, sig=lambda l: l.split()[0], miri=60, body_view=True)],
     trusted=[KERNEL, TRANSLATOR, HARNESS, MEM_TRUST, "typenum's Prod/Quot"],
     assumptions=["unflatten is claimed over evenly divisible lengths (its documented domain); other lengths hit the size check (owned) and are shown to stay within the source (by reference)"],
     nontrivial=lambda s, impl: " n=0 " not in s and " m=0 " not in s,
